@@ -81,6 +81,12 @@ PARSE_TRUST = ['parser unit: std::vector<Token>::iterator is the index-based mod
                'the pre-state (token array ending in EOF, cursor, AST) is built by the C harness; Theo::token_string is an arbitrary-string stub',
                'callee contracts are used at call sites (recursion through a second wrapper of the same contract); the textbook LL(1) argument joining the per-production contracts into "no error <=> sentence" is not machine-checked']
 
+prop('C16', level='proof',
+     claim='Mechanisms: a RUN of a name that is not in the program table is an UNKNOWN_PROGRAM_NAME error and emits no call of its own; an emitted EXEC enters the entry recorded in the table for that name (dispatchValue); the table entry of a routine is written by popSymbols, i.e. when the routine is finished, with its own entry/stack map/arity/frame size; every LOOP advances the loop number (private counter name) and ends with "counter := counter - 1; jump to the loop head" on one and the same counter register (dispatchLoop). Hence calls only reach finished routines: the call graph is acyclic (meta-argument).',
+     note='dispatchValue and popSymbols are BOUNDED stand-ins (<= 2 call arguments; <= 2 marks / <= 2..3 registers / small tables). dispatchProgram (popSymbols is called after the body) is not under contract; that funcAddrs has no other writer is a token scan. The step count formula for LOOP programs is not decided.',
+     explanation='Groups genU_dispatchValue, genU_popSymbols, gen_dispatchLoop.',
+     not_decided='dispatchProgram ordering; whole call-graph argument; halting bound', trusted=GEN_TRUST)
+
 prop('C08', level='proof',
      claim='The two breakpoint tables are only changed together and by exact inverse deltas: GenState::breakpoint appends one site to code, one entry to line_info and the site to the list of the current position (a new entry when there is none); GenState::removeTopPotBreak removes exactly the top site from both tables (erasing the key only when its list becomes empty); GenState::advanceLine emits at most one site and none for the hidden standard-macro file; VM::setBreakPoint succeeds exactly for listed locations. The global invariant "tables are inverse" follows by induction over these deltas (meta-argument).',
      note='getNextPos/getMarkPos are proved without bound. breakpoint/removeTopPotBreak/advanceLine/setBreakPoint are BOUNDED in the number of table entries (<= 8 quick, <= 24/16 thorough; contents, code size and site-list lengths symbolic): byte-granular access to symbolic-size arrays of 12/36-byte structs exhausts the SAT back end. Bounded groups are listed separately and not counted as discharged. "Every location is a line on which a token stands" is decided only as far as locations are copied from node positions (parser contracts, C04/C07).',
@@ -115,6 +121,5 @@ NOT_APPLICABLE = {
  'C13': 'recognises-exactly-the-grammar needs induction over derivations, which CBMC contracts cannot perform; code outside the C++ front end',
  'C14': 'the oracle is the regular-expression semantics of lexer.l against flex generated DFA tables; a contract can at most bound table indices, equivalence needs an independent regex construction (a model)',
  'C15': 'scan.cpp interleaves its include logic with flex entry points (yylex, yy_scan_string, reentrant scanner state) whose behaviour would have to be assumed wholesale; not built in this revision',
- 'C16': 'needs contracts on popSymbols/dispatchProgram/dispatchValue (program table written only after the body is generated); not built in this revision',
  'C18': 'thread schedules are outside CBMC contracts; the sequential half (no function under contract writes static storage) is implied by the assigns clauses but not claimed as a separate check in this revision',
 }
